@@ -126,7 +126,8 @@ def run(ck, facts, tier):
                         why = "Subset: the common list is not the right operand's list"
                     if ok and st == "Difference":
                         txt = repr(cel.vkey(common))
-                        ok = repr(cel.vkey(va)) in txt and repr(cel.vkey(vb)) in txt and ("'union'" in txt or "'chain'" in txt or "'extend'" in txt)
+                        ok = (repr(cel.vkey(va)) in txt and repr(cel.vkey(vb)) in txt and ("'union'" in txt or "'chain'" in txt or "'extend'" in txt)) or \
+                            inserts_all(cel.vkey(common), [cel.vkey(va), cel.vkey(vb)])
                         why = "Difference: the common list is not built from both operands' lists: %s" % txt[:300]
             ck.check(r5, key, ok, why, where, sample="(x, y) on one shared list; gather unless Arc/Value")
 
@@ -139,102 +140,43 @@ def run(ck, facts, tier):
         ck.fail(r4, "vars_cmp", "function not found")
     else:
         where = "%s:%d" % (vc["file"], vc["line"])
-        other = vc["params"][1].get("name")
-        chain = []          # [(conjunct list, variant)]
-        e = vc["body"]
-        while e.get("k") == "block" and not e["stmts"] and "e" in e:
-            e = e["e"]
-        while e.get("k") == "if":
-            t = e["t"]
-            while t.get("k") == "block" and not t["stmts"] and "e" in t:
-                t = t["e"]
-            chain.append((conjuncts(e["c"]), hir.ctor_name(t)))
-            e = e.get("e", {})
-            while e.get("k") == "block" and not e.get("stmts") and "e" in e:
-                e = e["e"]
-        last = hir.ctor_name(e) if e else None
-
-        def role(x):
-            """'self' for self.vars(), 'other' for the parameter, else None"""
-            x = strip(x)
-            if x.get("k") == "mcall" and x["m"] == "vars" and strip(x["recv"]).get("name") == "self":
-                return "self"
-            if x.get("k") == "field" and x["name"] == "vars" and strip(x["e"]).get("name") == "self":
-                return "self"
-            if x.get("k") == "path" and x.get("name") == other:
-                return "other"
-            return None
-
-        def is_ptr_eq(c):
-            return c.get("k") == "call" and c["f"].get("def", "").endswith("Arc::<T, A>::ptr_eq") or c.get("k") == "call" and "ptr_eq" in c["f"].get("def", "") \
-                and {role(a) for a in c["args"]} == {"self", "other"}
-
-        def is_ordered_eq(cs):
-            for c in cs:
-                c = strip(c)
-                # a.iter().eq(b.iter())
-                if c.get("k") == "mcall" and c["m"] == "eq" and it_role(c["recv"]) and it_role(c["args"][0]) and {it_role(c["recv"]), it_role(c["args"][0])} == {"self", "other"}:
-                    return True
-                # a.iter().zip(b.iter()).all(|(p,q)| p == q)  together with a length equality
-                if c.get("k") == "mcall" and c["m"] == "all" and strip(c["recv"]).get("k") == "mcall" and strip(c["recv"])["m"] == "zip":
-                    z = strip(c["recv"])
-                    if {it_role(z["recv"]), it_role(z["args"][0])} == {"self", "other"} and closure_is_pair_eq(c["args"][0]):
-                        if any(is_len_eq(strip(d)) for d in cs):
-                            return True
-            return False
-
-        def it_role(x):
-            x = strip(x)
-            if x.get("k") == "mcall" and x["m"] in ("iter", "into_iter") and not x["args"]:
-                return role(x["recv"])
-            return None
-
-        def is_len_eq(c):
-            if c.get("k") == "bin" and c["op"] == "Eq":
-                l, r_ = strip(c["l"]), strip(c["r"])
-                if l.get("k") == "mcall" and l["m"] == "len" and r_.get("k") == "mcall" and r_["m"] == "len":
-                    return {role(l["recv"]), role(r_["recv"])} == {"self", "other"}
-            return False
-
-        def closure_is_pair_eq(cl):
-            cl = strip(cl)
-            if cl.get("k") != "closure":
-                return False
-            b = cl["body"]
-            while b.get("k") == "block" and not b["stmts"] and "e" in b:
-                b = b["e"]
-            p = cl["params"][0]
-            if p.get("k") != "tuple" or len(p["ps"]) != 2:
-                return False
-            names = {q.get("name") for q in p["ps"]}
-            return b.get("k") == "bin" and b["op"] == "Eq" and {strip(b["l"]).get("name"), strip(b["r"]).get("name")} == names
-
-        def is_forall_contained(cs, outer, inner):
-            """forall v in `outer` list: `inner` list contains v"""
-            for c in cs:
-                c = strip(c)
-                if c.get("k") == "mcall" and c["m"] == "all" and it_role(c["recv"]) == outer:
-                    cl = strip(c["args"][0])
-                    if cl.get("k") == "closure":
-                        b = cl["body"]
-                        while b.get("k") == "block" and not b["stmts"] and "e" in b:
-                            b = b["e"]
-                        b = strip(b)
-                        if b.get("k") == "mcall" and b["m"] == "contains" and role(b["recv"]) == inner and strip(b["args"][0]).get("name") == cl["params"][0].get("name"):
-                            return True
-                if c.get("k") == "mcall" and c["m"] == "is_subset" and role(c["recv"]) == outer and role(c["args"][0]) == inner:
-                    return True
-                if c.get("k") == "mcall" and c["m"] == "is_superset" and role(c["recv"]) == inner and role(c["args"][0]) == outer:
-                    return True
-            return False
-
-        got = {v: cs for cs, v in chain}
-        ck.check(r4, "ArcEquivalent", "ArcEquivalent" in got and any(is_ptr_eq(strip(c)) for c in got["ArcEquivalent"]), "ArcEquivalent is not guarded by Arc::ptr_eq(self.vars(), other)", where, sample="Arc::ptr_eq")
-        ck.check(r4, "ValueEquivalent", "ValueEquivalent" in got and is_ordered_eq(got["ValueEquivalent"]),
-                 "ValueEquivalent is not guarded by an ordered, element-wise equality of the two lists (same length, pairwise equal in order)", where, sample="len == len && zip.all(==)")
-        ck.check(r4, "Superset", "Superset" in got and is_forall_contained(got["Superset"], "other", "self"), "Superset is not guarded by: every name of the other list is in self's", where, sample="other.iter().all(|v| self.vars().contains(v))")
-        ck.check(r4, "Subset", "Subset" in got and is_forall_contained(got["Subset"], "self", "other"), "Subset is not guarded by: every name of self's list is in the other", where, sample="self.vars().iter().all(|v| other.contains(v))")
-        ck.check(r4, "Difference", last == "Difference", "the fall-through case is %s, not Difference (the always-correct gather path)" % last, where, sample="else => Difference")
+        # judged on the paths of the symbolically evaluated body, so an if/else-if chain, a match on the length ordering with guards, early returns and
+        # helper functions are one form: a path that returns a relationship must have established the condition that gives the relationship its meaning
+        vk = cel.vkey
+        VA, VB = Sym("vars", "a"), Sym("vars", "b")
+        q0 = Poly.atom("q0")
+        at = lambda c: Sym("at", vk(c), q0.key())
+        lit = paths.lit
+        ptr = {lit(Sym("call", "std::sync::Arc::<T, A>::ptr_eq", (vk(x), vk(y)))) for x, y in ((VA, VB), (VB, VA))}
+        leneq = lit(cel.cmp_sym("Eq", Poly.atom(("len", vk(VA), None)), Poly.atom(("len", vk(VB), None)), True))
+        zipeq = {lit(Sym("forall", vk(Sym("zip", vk(x), vk(y))), vk(cel.eq_sym(at(VA), at(VB))))) for x, y in ((VA, VB), (VB, VA))}
+        itereq = lit(Sym("arr_eq", cel._srt([vk(VA), vk(VB)])))
+        def contained(outer, inner):
+            """literals that state: every name of `outer` is in `inner`"""
+            return {lit(Sym("forall", vk(outer), vk(Sym("m", "contains", vk(inner), (vk(at(outer)),))))),
+                    lit(Sym("m", "is_subset", vk(outer), (vk(inner),))), lit(Sym("m", "is_superset", vk(inner), (vk(outer),)))}
+        need = {"ArcEquivalent": lambda c: bool(ptr & c),
+                "ValueEquivalent": lambda c: (leneq in c and bool(zipeq & c)) or itereq in c,
+                "Superset": lambda c: bool(contained(VB, VA) & c),
+                "Subset": lambda c: bool(contained(VA, VB) & c)}
+        msg = {"ArcEquivalent": "ArcEquivalent is not guarded by Arc::ptr_eq(self.vars(), other)",
+               "ValueEquivalent": "ValueEquivalent is not guarded by an ordered, element-wise equality of the two lists (same length, pairwise equal in order)",
+               "Superset": "Superset is not guarded by: every name of the other list is in self's",
+               "Subset": "Subset is not guarded by: every name of self's list is in the other"}
+        try:
+            got = cel.Ev(facts, hooks={"@elem": gather.container_elem}).apply_fn("dual::dual::Vars::vars_cmp", [cel.operand("a", D1), VB], 0)
+            ps = [(paths.atoms(c), v) for c, v in paths.flatten(got)]
+            leaf = lambda v: v.tag[1] if isinstance(v, Sym) and v.tag[:1] == ("ctor",) else None
+            for variant in ("ArcEquivalent", "ValueEquivalent", "Superset", "Subset"):
+                mine = [c for c, v in ps if leaf(v) == variant]
+                bad = [c for c in mine if not need[variant](c)]
+                ck.check(r4, variant, not bad, msg[variant], where, detail=repr(sorted(bad[0], key=repr))[:600] if bad else None,
+                         sample="%d path(s) return %s, each under its defining condition" % (len(mine), variant))
+            others = sorted({cel.vfmt(v)[:60] for c, v in ps if leaf(v) not in need and leaf(v) != "Difference"})
+            ck.check(r4, "Difference", bool(ps) and not others and any(leaf(v) == "Difference" for _, v in ps),
+                     "a path of vars_cmp returns %s: the fall-through case must be Difference (the always-correct gather path)" % others, where, sample="else => Difference")
+        except Unsupported as e:
+            ck.fail(r4, "vars_cmp", "rule could not be established (%s)" % e, where)
         overriders = [r["fn"] for r in facts.all_fns() if r.get("trait_item") == "dual::dual::Vars::vars_cmp"]
         ck.check(r4, "not-overridden", not overriders, "vars_cmp overridden by %s" % overriders, sample="default method only")
 
@@ -388,6 +330,35 @@ def run(ck, facts, tier):
     deps.include_number_surface(ck, facts, tier)
     ck.not_decided += ["IndexSet/Arc behaviour (hash collisions, pointer identity) is trusted", "to_combined_vars' result order of names (either operand first; the statement makes results independent of it)"]
     ck.trusted += ["lib/cel.py array-comprehension semantics", "rules/gather.py normal forms"]
+
+
+def inserts_all(common, srcs):
+    """Is the set `common` (a key) built by inserting every element of each list in `srcs`? An insert chain `s.insert(x)` ... where, for each source list,
+    its generic element at(src, i) is inserted unconditionally, or skipped only when it is already a member of a list that is itself inserted in full."""
+    ins = []          # (item key, guards)
+    k = common
+    while isinstance(k, tuple) and k[:2] == ("sym", "mut") and k[2] == "insert" and len(k) >= 5 and len(k[4]) == 1:
+        ins.append((k[4][0], k[5] if len(k) > 5 else ()))
+        k = k[3]
+    if not (isinstance(k, tuple) and k[:2] == ("sym", "call") and ("with_capacity" in k[2] or k[2].endswith("::new"))):
+        return False
+
+    def elem_of(item, src):
+        return isinstance(item, tuple) and item[:3] == ("sym", "at", src)
+    full = {src for src in srcs if any(elem_of(it, src) and not g for it, g in ins)}
+    for src in srcs:
+        if src in full:
+            continue
+        ok = False
+        for it, g in ins:
+            if elem_of(it, src) and len(g) == 1:
+                a, pol = paths.norm_cond(g[0])
+                # skipped only if `other.contains(item)` with `other` inserted in full
+                if pol is False and isinstance(a, tuple) and a[:3] == ("sym", "m", "contains") and a[3] in full and a[4] == (it,):
+                    ok = True
+        if not ok:
+            return False
+    return bool(ins)
 
 
 def conj_set(v):
